@@ -62,8 +62,16 @@ class Timeframe:
             if ssh_product not in self.__storage:
                 self.__storage[ssh_product] = [None] * 4
             prev = self[ssh_product][pos]
-            if (prev is None or (prev < ssh_version and pos % 2 == 0) or (prev > ssh_version and pos % 2 == 1)):
+            if (prev is None or (self._version_key(prev) < self._version_key(ssh_version) and pos % 2 == 0) or (self._version_key(prev) > self._version_key(ssh_version) and pos % 2 == 1)):
                 self.__storage[ssh_product][pos] = ssh_version
+
+    @staticmethod
+    def _version_key(version: str) -> Tuple[int, Any]:
+        '''Sort key that orders dotted decimal versions numerically (10.0 > 9.9); anything else is ordered as text, after the numeric ones.'''
+        try:
+            return (0, tuple(int(x) for x in version.split('.')))
+        except ValueError:
+            return (1, version)
 
     def update(self, versions: List[Optional[str]], for_server: Optional[bool] = None) -> 'Timeframe':
         for_cli = for_server is None or for_server is False
